@@ -148,6 +148,12 @@ def check_unary(part, env, size, b, rich_zero=False):
                 key = 'mul/double-premature-underflow'
             part.violation(key, '%s with x=%s:%s (other operand %s) -> %s' % (
                 name, t, b.hex(), other_cls.__name__, _show(got)), case)
+        elif want is None:
+            # the identity as a program sees it: (x+0)=x etc. is true (-1) through the = operator as well
+            ge = _run(part, name + '=x', case, V.eq, r, X)
+            if ge[0] != 'ok' or bytes(ge[1]._buffer) != b'\xff\xff':
+                part.violation('%s/%s/not-equal-for-basic' % (name, t), '(%s)=x with x=%s:%s (other operand %s): result %s, the = operator gives %s' % (
+                    name, t, b.hex(), other_cls.__name__, _show(got), _show(ge)), case)
 
     zeros = env.zeros + (env.odd_zeros if rich_zero else [])
     for Z in zeros:
